@@ -27,6 +27,13 @@ void harness(void) {
 	int res = run(ctx, &i1, &i2, &o, &u, &e);
 	C19_DISARM();
 	C19_OUTCOME(res, e != NULL && i2 != NULL && KSI_Integer_getUInt64(i2) == 0x1234567890ULL);
+	/* the element must remain usable after the failed call (faults disarmed): it serialises and can be queried */
+	if (e != NULL) { u8 o2[32]; size_t l2 = 0; KSI_TlvElement *q = NULL;
+		int r2 = KSI_TlvElement_serialize(e, o2, sizeof(o2), &l2, 0);
+		CHECK(r2 == KSI_OK && l2 >= 7 && o2[0] == 0x01, "C19.H3 an element that saw a failed allocation still serialises");
+		r2 = KSI_TlvElement_getElement(e, 0x02, &q);
+		CHECK(r2 == KSI_OK && q != NULL && q->ftlv.dat_len == 1, "C19.H3 ... and its children can still be looked up");
+		KSI_TlvElement_free(q); }
 	KSI_Integer_free(i1); KSI_Integer_free(i2); KSI_OctetString_free(o); KSI_Utf8String_free(u); KSI_TlvElement_free(e);
 	i1 = i2 = NULL; o = NULL; u = NULL; e = NULL;
 	res = run(ctx, &i1, &i2, &o, &u, &e);
